@@ -127,9 +127,8 @@ func (prog Progress) WalkLocal(n datamodel.Node, fn VisitFn) error {
 			if err != nil {
 				return err
 			}
-			ks, _ := k.AsString()
 			progNext := prog
-			progNext.Path = prog.Path.AppendSegmentString(ks)
+			progNext.Path = prog.Path.AppendSegment(asPathSegment(k))
 			if err := progNext.WalkLocal(v, fn); err != nil {
 				return err
 			}
